@@ -18,7 +18,8 @@ CONSTANTS NW,           \* workers 0..NW-1
           GracefulSkipsAwait,    \* stop(true) does not await the workers
           CompleteBeforeJoin,    \* completion sent before the accept thread is joined
           TermIsForced,          \* SIGTERM mapped to a forced stop
-          SecondStopHangs        \* a stop that is never handled keeps its future pending
+          SecondStopHangs,       \* a stop that is never handled keeps its future pending
+          AwaitsLastWorkerOnly   \* the join of the worker replies is satisfied by the last worker's reply alone
 
 Workers == 0..(NW - 1)
 Kinds == {"graceful", "forced", "SIGTERM", "SIGINT", "SIGQUIT"}
@@ -72,7 +73,8 @@ SrvSendWorkers ==
   /\ everGracefulLive' = (everGracefulLive \/ (Graceful(stops[cur].kind) /\ \E i \in Workers : live[i] > 0))
   /\ act' = A("SrvSendWorkers")
   /\ UNCHANGED <<cmdq, stops, cur, rxOpen, acc, wst, live, since, due, reply, serverDone, nstops>>
-SrvAwaitWorkers == /\ spc = "awaitWorkers" /\ \A i \in Workers : reply[i] # "none"
+SrvAwaitWorkers == /\ spc = "awaitWorkers"
+                   /\ (IF AwaitsLastWorkerOnly THEN reply[NW - 1] # "none" ELSE \A i \in Workers : reply[i] # "none")
                    /\ spc' = "joinAccept" /\ act' = A("SrvAwaitWorkers")
                    /\ UNCHANGED <<cmdq, stops, cur, rxOpen, acc, wst, live, wstop, since, due, reply, serverDone, nstops, everGracefulLive>>
 SrvJoinAccept == /\ spc = "joinAccept" /\ (acc = "exited" \/ CompleteBeforeJoin)
